@@ -51,6 +51,18 @@ def generate(seed, tier, enlarged=False):
         n *= 3
     wire.GLOBDICT_WEIGHT[0] = 2
     cases = wire.gen_cases(rng, n, ['view', 'invert', 'apply', 'apply'], 3 if tier == 'quick' else 4)
+
+    # corpus: two scalar port variables wired to one variable, at the root of the hierarchy, reached through
+    # '..' from a nested process, and one level down (F3 was this collision; every depth has to merge)
+    def var(d):
+        return {'$var': {'default': d, 'value': None, 'units': None}}
+
+    def collide(parent, tgt):
+        return {'kind': 'apply', 'init': {}, 'i': 0, 'upd': {'pa': {'x': 10, 'y': 20}}, 'procs': [{
+            'parent': parent, 'name': 'p0',
+            'schema': {'$node': {'out': False, 'c': [['pa', {'$node': {'out': False, 'c': [['x', var(1)], ['y', var(1)]]}}]]}},
+            'topo': [['pa', {'$dict': {'path': None, 'c': [['x', {'$path': tgt}], ['y', {'$path': tgt}]]}}]]}]}
+    cases = [collide([], ['z']), collide(['c1'], ['..', 'z']), collide([], ['sa', 'z'])] + cases
     # glob ports whose topology carries a '*' entry (oracle only: no '*' entries in the model's topologies)
     from harness import globtopo
     cases += [globtopo.gen_case(rng) for _ in range(n // 5)]
